@@ -35,7 +35,7 @@ META = {
 }
 
 ALL = '{"consul", "etcd", "memberlist"}'
-INV = "Serial SeenChain NoLostNoPhantom"
+INV = "Serial SeenChain NoLostNoPhantom SawCurrent"
 
 
 def subst(nc, ops, maxerr, emit, backends=ALL, secondaries='{"none"}', limit=10, delete=False, inv=INV):
@@ -71,8 +71,10 @@ def dedup_prefixes(src, dst):
     return n, kept
 
 
-def replay(ctx, gens, label, variants=None, timeout=900):
-    """gens: [(name, TLCResult)] of emitting runs. The prefix-free behaviours of all of them go through one harness run."""
+def replay(ctx, gens, label, variants=None, timeout=900, record_rounds=0):
+    """gens: [(name, TLCResult)] of emitting runs. The prefix-free behaviours of all of them go through one harness run
+    (which also records the code -> spec traces when record_rounds > 0; they are validated afterwards).
+    Self-test knobs read by the harness: VERIF_CORRUPT_REPLAY=val|e (one expected output), VERIF_CORRUPT_TRACE=final|in|ok (one logged field)."""
     path = ctx.path("beh_%s.ndjson" % label)
     ntrans = kept = 0
     with open(path, "w") as out:
@@ -92,22 +94,27 @@ def replay(ctx, gens, label, variants=None, timeout=900):
     env = {"VERIF_IN": path}
     if variants:
         env["VERIF_VARIANTS"] = variants
-    if os.environ.get("VERIF_CORRUPT_REPLAY"):
-        env["VERIF_CORRUPT"] = os.environ["VERIF_CORRUPT_REPLAY"]
-    res = ctx.run_harness("c07", "^TestReplay$", env=env, timeout=timeout)
+    trace = None
+    if record_rounds:
+        trace = ctx.path("c07_trace.ndjson")
+        env.update({"VERIF_TRACE": trace, "VERIF_ROUNDS": record_rounds})
+    res = ctx.run_harness("c07", "^TestAll$" if record_rounds else "^TestReplay$", env=env, timeout=timeout)
     ex = res.get("extra") or {}
     ctx.log("%s: %d transitions -> %d maximal behaviours -> %s replays on real clients, %s mismatches" % (
-        label, ntrans, kept, res.get("cases"), ex.get("mismatches_total")))
-    if not res.get("fatal") and (ex.get("behaviours_read") != kept or res.get("cases", 0) < kept):
-        incon("%s: harness read %s and replayed %s behaviours, %d were generated" % (label, ex.get("behaviours_read"), res.get("cases"), kept))
+        label, ntrans, kept, ex.get("replayed"), ex.get("mismatches_total")))
+    if not res.get("fatal") and (ex.get("behaviours_read") != kept or ex.get("replayed", 0) < kept):
+        incon("%s: harness read %s and replayed %s behaviours, %d were generated" % (label, ex.get("behaviours_read"), ex.get("replayed"), kept))
     per = ex.pop("replayed_per_variant", {})
-    for k in ("replay_classes", "mismatches_by_sig", "behaviours_read"):
+    for k in ("replay_classes", "mismatches_by_sig", "behaviours_read", "replayed"):
         ex.pop(k, None)
     tot = ctx.extra.setdefault("replayed_per_variant", {})
     for k, v in per.items():
         tot[k] = tot.get(k, 0) + v
     ctx.extra["transitions_covered_by_replay"] = ctx.extra.get("transitions_covered_by_replay", 0) + ntrans
-    ctx.absorb(res, label)
+    recorded = ex.pop("recorded", None)
+    ctx.absorb(res, label)          # replay mismatches are violations whatever the validator says
+    if trace:
+        validate_recorded(ctx, trace, recorded)
 
 
 def tlc(ctx, label, sub, timeout, coverage=False):
@@ -124,49 +131,45 @@ def tlc(ctx, label, sub, timeout, coverage=False):
 
 
 def validate(ctx, trace, ntraces):
-    """TLC accepts the recorded runs iff its single path consumes every event of every line."""
+    """TLC accepts the recorded runs iff its single path consumes every event of every line.
+    Returns None (accepted) or (index of the first rejected line, why)."""
     r = ctx.tlc("kvcas", "KVCasTrace", extra_files={trace: "trace.ndjson"}, workers=1, deadlock=False, timeout=1200,
                 emit_prefixes=("\x00",))
     acc = [int(x) for x in re.findall(r'<<"line-accepted", (\d+)>>', r.log)]
     done = max(acc) if acc else 0
     if r.ok and done == ntraces:
         return None
-    if r.timed_out or r.error or (r.violated and r.violated != "Postcondition") or done >= ntraces:
-        if r.violated in ("Serial", "NoLostNoPhantom", "TypeOK"):
-            return done + 1, "invariant %s of KVCas.tla violated while following the recorded run" % r.violated
-        incon("trace validation: TLC rc=%s violated=%s error=%s timed_out=%s accepted=%d/%d" % (
-            r.rc, r.violated, (r.error or "")[:300], r.timed_out, done, ntraces))
-    return done + 1, "no enabled KVCas step matches the caller's next logged event (or the final value differs)"
+    if r.violated in ("Serial", "NoLostNoPhantom", "TypeOK") and done < ntraces:
+        return done + 1, "invariant %s of KVCas.tla is violated while following the recorded run" % r.violated
+    postcond = "Postcondition AllAccepted" in r.log or r.violated == "Postcondition"
+    if postcond and not r.timed_out and done < ntraces and "states generated" in r.log:
+        return done + 1, "no enabled KVCas step matches the caller's next logged event (or the final value differs)"
+    incon("trace validation: TLC rc=%s violated=%s error=%s timed_out=%s accepted=%d/%d" % (
+        r.rc, r.violated, (r.error or "")[:300], r.timed_out, done, ntraces))
 
 
-def record_validate(ctx, rounds):
-    trace = ctx.path("c07_trace.ndjson")
-    env = {"VERIF_TRACE": trace, "VERIF_ROUNDS": rounds}
-    if os.environ.get("VERIF_CORRUPT_TRACE"):
-        env["VERIF_CORRUPT"] = os.environ["VERIF_CORRUPT_TRACE"]
-    res = ctx.run_harness("c07", "^TestRecord$", env=env, timeout=900)
+def validate_recorded(ctx, trace, recorded):
+    """Validate the traces the harness recorded; a rejected one is a disagreement (recorded from the real code)."""
     lines = [l for l in open(trace) if l.strip()]
-    if len(lines) != res.get("cases"):
-        incon("recorder wrote %d traces, reported %s" % (len(lines), res.get("cases")))
-    ex = res.get("extra") or {}
-    ex.pop("mismatches_by_sig", None)
-    if lines:
-        bad = validate(ctx, trace, len(lines))
-        if bad is not None:
-            idx, why = bad
-            t = json.loads(lines[idx - 1])
-            # is it this line alone (and not the position in the file)? validate it on its own
-            single = ctx.path("c07_trace_single.ndjson")
-            open(single, "w").write(lines[idx - 1])
-            again = validate(ctx, single, 1)
-            if again is None:
-                incon("trace %d rejected in the batch but accepted alone: harness/validator trouble" % idx)
-            res.setdefault("mismatches", [])
-            res["mismatches"] = (res.get("mismatches") or []) + [{
-                "sig": "record %s %s: trace rejected by KVCasTrace" % (t.get("variant"), t.get("mode")),
-                "case": {"variant": t.get("variant"), "mode": t.get("mode"), "n": t.get("n"), "m": t.get("m"), "trace": t},
-                "got": "events and final value recorded from the real store", "want": why}]
-    ctx.absorb(res, "record/validate")
+    if len(lines) != recorded:
+        incon("recorder wrote %d traces, reported %s" % (len(lines), recorded))
+    if not lines:
+        return
+    bad = validate(ctx, trace, len(lines))
+    if bad is None:
+        return
+    idx, why = bad
+    t = json.loads(lines[idx - 1])
+    # is it this line alone (and not its position in the file)? validate it on its own
+    single = ctx.path("c07_trace_single.ndjson")
+    open(single, "w").write(lines[idx - 1])
+    if validate(ctx, single, 1) is None:
+        incon("trace %d rejected in the batch but accepted alone: harness/validator trouble" % idx)
+    ctx.traces -= 1          # that run was recorded but not accepted
+    ctx.disagreement({
+        "sig": "record %s %s: trace rejected by KVCasTrace" % (t.get("variant"), t.get("mode")),
+        "case": {"variant": t.get("variant"), "mode": t.get("mode"), "n": t.get("n"), "m": t.get("m"), "trace": t},
+        "got": "events and final value recorded from the real store", "want": why}, "record/validate")
 
 
 def run(ctx):
@@ -192,20 +195,24 @@ def run(ctx):
         # the Consul client with a configured limit of 3 (Config.MaxCasRetries); 3 callers x 1 call behind every wrapper
         gens.append(("limit3", tlc(ctx, "gen consul limit 3", subst(2, 2, 3, True, backends='{"consul"}', limit=3), timeout=600)))
         gens.append(("gen3x1", tlc(ctx, "gen 3x1", subst(3, 1, 1, True, secondaries='{"none", "consul", "memberlist"}'), timeout=600)))
-    replay(ctx, gens, "all-variants")
+    # ... and, in the same harness process, code -> spec: recorded runs, validated by KVCasTrace.tla
+    replay(ctx, gens, "all-variants", record_rounds=3 if thorough else 1)
 
     if thorough:
         # 3. every transition of the 3-caller x 2-call graph on the bare stores
         r = tlc(ctx, "gen 3x2", subst(3, 2, 0, True), timeout=1500)
         replay(ctx, [("gen3x2", r)], "bare-3x2", variants="consul/bare,etcd/bare,memberlist/bare", timeout=1800)
-        # 4. outside the property: what a Delete by somebody else does to the mocks (documentation only)
+        # 4. outside the property (documentation): a Delete by somebody else. The specification's model of what the
+        #    Consul and etcd mocks do with it is replayed on the real clients like everything else; on that model TLC
+        #    finds that a successful write need no longer be computed from the value it replaces (etcd mock: Version
+        #    restarts at 1 = ABA; Consul mock: an absent key accepts any index).
+        r = tlc(ctx, "gen delete", subst(2, 2, 0, True, backends='{"consul", "etcd"}', delete=True, inv=""), timeout=600)
+        replay(ctx, [("delete", r)], "delete", variants="consul/bare,etcd/bare")
         for be in ("etcd", "consul"):
             ra = ctx.tlc("kvcas", "KVCas", cfg="MC.cfg", timeout=300, deadlock=False, count=False, workers=4,
-                         subst=subst(2, 1, 0, False, backends='{"%s"}' % be, delete=True, inv=""))
+                         subst=subst(2, 2, 0, False, backends='{"%s"}' % be, delete=True, inv="SawCurrent"))
             ctx.extra["outside_quantifier_delete_%s" % be] = (
                 "SawCurrent violated (a successful write was computed from a value other than the one it replaced)"
                 if ra.violated == "SawCurrent" else "no violation found (rc=%s violated=%s)" % (ra.rc, ra.violated))
 
-    # 5. code -> spec
-    record_validate(ctx, rounds=3 if thorough else 1)
     return "model_checking"
